@@ -51,7 +51,14 @@ def gen_table(ctx):
         ts = [sorted(r[c] for r in tv)[reps // 2] for c in range(n)]
     else:
         ts = [ctx.rng.randint(0, hi + 1) for _ in range(n)]
-    if ctx.rng.random() < 0.02:
+    if ctx.rng.random() < 0.06:
+        # integer statistics beyond 2^53 (sums of ids / nanosecond timestamps): distinct as integers, equal as doubles
+        off = ctx.rng.choice([2**53, 2**53 + 1, 1_700_000_000_000_000_000])
+        cols = [c for c in range(n) if ctx.rng.random() < 0.7] or [0]
+        tv = [[(off + v if c in cols else v) for c, v in enumerate(r)] for r in tv]
+        ts = [(off + v if c in cols else v) for c, v in enumerate(ts)]
+        mode = "bigint"
+    elif ctx.rng.random() < 0.02:
         # very many partial tests, observed row extreme in all of them: Fisher's product of p-values underflows to 0
         n, reps = ctx.rng.choice([(220, 30), (220, 40), (330, 9), (330, 14), (330, 20)])
         tv = [[ctx.rng.randint(0, 1000) for _ in range(n)] for _ in range(reps)]
@@ -76,6 +83,8 @@ def run(ctx):
         kinds = [ctx.rng.choice(["np", "float", "int", "f32", "i64"]) for _ in range(n)]
         if ctx.rng.random() < 0.3:
             kinds = [ctx.rng.choice(["f32", "int", "i64"])] * n      # a homogeneous non-float64 matrix
+        if mode == "bigint":
+            kinds = [ctx.rng.choice(["int", "i64"])] * n             # exact integer statistics throughout
         e, tests, st = scripted_experiment(tv, ts, kinds)
         cfun, cname = user_combiner(comb, n, ctx.rng)
         r = guarded(npc.sim_npc, e, tests, combine=cfun, reps=reps, in_place=ctx.rng.random() < 0.3)
@@ -158,6 +167,8 @@ def run(ctx):
         else:
             pv = [Fr(ctx.rng.randint(1, 64), 64) for _ in range(n)]            # dyadic
         dt = ctx.rng.choice([float, float, np.float32, np.int64, int])
+        if mode == "bigint":
+            dt = np.int64                                        # exact integers beyond 2^53: only an integer matrix holds them
         Darr = layout(POOL.get("distr", D, dt), ctx.rng)        # reused buffer, various memory layouts
         if ctx.rng.random() < 0.3:                               # a different combiner first, on the very same contents
             guarded(npc.npc, np.array([float(t) for t in pv]), Darr, combine=ctx.rng.choice(["liptak", "fisher", "tippett"]), plus1=plus1)
@@ -178,7 +189,7 @@ def run(ctx):
     # ------------------------------------------------------------------ exact validity by rotation
     for _ in range(ctx.n(40, 400)):
         reps, n, tv, ts, mode = gen_table(ctx)
-        if reps > 10 or mode == "wide":
+        if reps > 10 or mode in ("wide", "bigint"):
             continue
         D = tv + [ts]; B = len(D)
         comb = ctx.rng.choice(["tippett", "fisher"])
